@@ -152,6 +152,8 @@ pub fn w_vfunc<'a>(
     e: &Eps<'a, VFunc<usize, u64, Box<[u64]>, [u64; 2], FuseLge3Shards>>,
 ) -> (usize, usize, u8, usize, u64) {
     let _: (usize, usize, usize) = (a.len(), b.len(), c.len());
+    // the unaligned queries exist on every bit-field backend, loaded ones included
+    let _: (usize, usize) = (b.get_unaligned(1usize), d.get_unaligned(2usize));
     (a.get(0usize), b.get(1usize), c.get("x"), d.get(2usize), e.get(3usize))
 }
 
@@ -160,6 +162,7 @@ pub fn w_vfilter<'a>(
     b: &Eps<'a, VFilter<usize, VFunc<str, usize, BitFieldVec<usize>>>>,
     c: &Eps<'a, VFilter<u16, VFunc<usize, u16, Box<[u16]>, [u64; 1], FuseLge3NoShards>>>,
 ) -> (bool, bool, bool, usize) {
+    let _: bool = b.contains_unaligned("x");
     (a.contains(0usize), b.contains("x"), c.contains(7usize), a.len() + b.len() + c.len())
 }
 
@@ -179,6 +182,7 @@ pub fn w_iter<'a>(
     for x in bv.iter_ones() {
         s += x;
     }
+    s += bv.count_ones() + bv.par_count_ones();
     s + ef.len() + ef.get(0)
 }
 
